@@ -295,6 +295,9 @@ def to_str(interp, v, node=None):
             from . import strlib
             # ground fact about str(int): an optional minus sign followed by decimal digits
             interp.ctx.assume(z3.InRe(r, strlib.PLAIN_INT), "str(int):decimal-digits")
+            # ... which int() reads back as the same number
+            ten = z3.IntVal(10)
+            interp.ctx.assume(z3.And(strlib.INT_OK(r, ten), strlib.INT_VAL(r, ten) == v.z), "int(str(n)) == n")
         return VStr(r)
     if isinstance(v, VNone):
         return VStr("None")
